@@ -12,17 +12,17 @@ import (
 
 // Controller names.
 const (
-	CtrlObjectSet             = "ObjectSet"
-	CtrlClusterObjectSet      = "ClusterObjectSet"
-	CtrlObjectSetPhase        = "ObjectSetPhase"        // same-cluster, class "default"
-	CtrlClusterObjectSetPhase = "ClusterObjectSetPhase" // same-cluster, class "default"
-	CtrlRemotePhase           = "RemoteObjectSetPhase"  // multi-cluster flavour (annotation owner strategy), class "remote"
-	CtrlObjectDeployment      = "ObjectDeployment"
+	CtrlObjectSet               = "ObjectSet"
+	CtrlClusterObjectSet        = "ClusterObjectSet"
+	CtrlObjectSetPhase          = "ObjectSetPhase"        // same-cluster, class "default"
+	CtrlClusterObjectSetPhase   = "ClusterObjectSetPhase" // same-cluster, class "default"
+	CtrlRemotePhase             = "RemoteObjectSetPhase"  // multi-cluster flavour (annotation owner strategy), class "remote"
+	CtrlObjectDeployment        = "ObjectDeployment"
 	CtrlClusterObjectDeployment = "ClusterObjectDeployment"
-	CtrlPackage               = "Package"
-	CtrlClusterPackage        = "ClusterPackage"
-	CtrlObjectTemplate        = "ObjectTemplate"
-	CtrlClusterObjectTemplate = "ClusterObjectTemplate"
+	CtrlPackage                 = "Package"
+	CtrlClusterPackage          = "ClusterPackage"
+	CtrlObjectTemplate          = "ObjectTemplate"
+	CtrlClusterObjectTemplate   = "ClusterObjectTemplate"
 
 	ClassDefault = "default"
 	ClassRemote  = "remote"
